@@ -4,7 +4,7 @@
    member entry naming the element), for nodes, ways and relations; and the rules of the
    [tainted] flag for each feature class. *)
 From Coq Require Import ZArith String List Bool Lia.
-From Verif Require Import C17.Model C17.Spec C17.Proofs C17.ProofsGeom C17.ProofsRoute.
+From Verif Require Import C17.Model C17.Spec C17.ProofsPacked C17.Proofs C17.ProofsGeom C17.ProofsRoute.
 Import ListNotations.
 Open Scope Z_scope.
 Open Scope list_scope.
@@ -30,12 +30,12 @@ Proof. repeat split. Qed.
 (* the summaries reported for an element are one per member entry naming it, in relation order
    then member order, with that entry's role and the relation's id and tag map; way entries
    count only for ways that are in the data *)
-Lemma rel_summaries_spec o d key :
+Lemma rel_summaries_x_spec o d key :
   noRelM o = false ->
   (fst key = TWay -> is_some (way_lookup d (snd key)) = true) ->
-  rel_summaries o d key = spec_rels d key.
+  rel_summaries_x o d key = spec_rels d key.
 Proof.
-  intros Ho Hw. unfold rel_summaries, spec_rels. apply flat_map_ext. intros r. apply flat_map_ext. intros m.
+  intros Ho Hw. unfold rel_summaries_x, spec_rels. apply flat_map_ext. intros r. apply flat_map_ext. intros m.
   unfold member_counts, key_eqb. rewrite Ho. cbn [andb negb fst snd].
   destruct (etype_eqb (m_type m) (fst key)) eqn:Ht; [|destruct (etype_eqb (m_type m) TWay); rewrite ?andb_false_r; reflexivity].
   apply etype_eqb_eq in Ht. destruct (m_ref m =? snd key) eqn:Hr; [|rewrite !andb_false_r; reflexivity].
@@ -43,10 +43,21 @@ Proof.
   apply etype_eqb_eq in Hway. rewrite Hr, Hw by congruence. reflexivity.
 Qed.
 
-Lemma rel_summaries_absent_way o d id :
-  way_lookup d id = None -> rel_summaries o d (TWay, id) = [].
+(* the model's lookup goes through the packed key: it is the exact one for every element of a data
+   set in which no member entry packs to the key of a different element *)
+Lemma rel_summaries_spec o d key :
+  key_clash d = false -> In key (element_keys d) ->
+  noRelM o = false ->
+  (fst key = TWay -> is_some (way_lookup d (snd key)) = true) ->
+  rel_summaries o d key = spec_rels d key.
 Proof.
-  intros Hn. unfold rel_summaries.
+  intros Hc Hk Ho Hw. rewrite (rel_summaries_exact o d key Hc Hk). exact (rel_summaries_x_spec o d key Ho Hw).
+Qed.
+
+Lemma rel_summaries_x_absent_way o d id :
+  way_lookup d id = None -> rel_summaries_x o d (TWay, id) = [].
+Proof.
+  intros Hn. unfold rel_summaries_x.
   assert (H : forall (l : list relation), flat_map (fun r => flat_map (fun m =>
       if member_counts o d m && etype_eqb (m_type m) (fst (TWay, id)) && (m_ref m =? snd (TWay, id))
       then [{| s_id := r_id r; s_role := m_role m; s_tags := tags_map (r_tags r) |}] else []) (r_members r)) l = []).
@@ -59,6 +70,13 @@ Proof.
   apply H.
 Qed.
 
+Lemma rel_summaries_absent_way o d id :
+  key_clash d = false -> In (TWay, id) (element_keys d) ->
+  way_lookup d id = None -> rel_summaries o d (TWay, id) = [].
+Proof.
+  intros Hc Hk Hn. rewrite (rel_summaries_exact o d _ Hc Hk). exact (rel_summaries_x_absent_way o d id Hn).
+Qed.
+
 (* ---------- carried element ---------- *)
 (* a way-typed feature is about a way of the data, or about a way that exists only as the
    annotated nodes of a multipolygon member (no tags, no meta) *)
@@ -67,25 +85,33 @@ Definition way_source (d : osm) (w : way) : Prop :=
   exists r m, In r (relations d) /\ In m (r_members r) /\ way_lookup d (m_ref m) = None /\
               w = pseudo_way (m_ref m) (m_nodes m).
 
+(* the memberships are stated with the EXACT lookup (rel_summaries_x = spec_rels, above) *)
 Definition carries_element (o : opts) (d : osm) (f : feature) : Prop :=
   exists ts m,
     f_id f = (if noID o then None else Some (fkey f)) /\
     f_tags f = tags_map ts /\
     f_meta f = (if noMeta o then None else Some (meta_obs m)) /\
-    f_rels f = (if noRelM o then None else Some (rel_summaries o d (fkey f))) /\
+    f_rels f = (if noRelM o then None else Some (rel_summaries_x o d (fkey f))) /\
     match f_type f with
     | TNode => exists n, In n (nodes d) /\ n_id n = f_ref f /\ n_tags n = ts /\ n_meta n = m
     | TWay => exists w, way_source d w /\ w_id w = f_ref f /\ w_tags w = ts /\ w_meta w = m
     | TRel => exists r, In r (relations d) /\ r_id r = f_ref f /\ r_tags r = ts /\ r_meta r = m
+    | TNone => False
     end.
 
 Lemma mk_carries o d ty ref ts t m g :
+  key_clash d = false -> In (ty, ref) (element_keys d) ->
   match ty with
   | TNode => exists n, In n (nodes d) /\ n_id n = ref /\ n_tags n = ts /\ n_meta n = m
   | TWay => exists w, way_source d w /\ w_id w = ref /\ w_tags w = ts /\ w_meta w = m
   | TRel => exists r, In r (relations d) /\ r_id r = ref /\ r_tags r = ts /\ r_meta r = m
+  | TNone => False
   end -> carries_element o d (mk_feature o d ty ref ts t m g).
-Proof. intros H. exists ts, m. repeat split; exact H. Qed.
+Proof.
+  intros Hc Hk H. exists ts, m. split; [reflexivity|]. split; [reflexivity|]. split; [reflexivity|].
+  split; [|exact H]. cbn [f_rels mk_feature fkey f_type f_ref].
+  rewrite (rel_summaries_exact o d (ty, ref) Hc Hk). reflexivity.
+Qed.
 
 Lemma poly_step_outer_src d rt m s w :
   In (s, w) (ps_outer (poly_step d rt m)) ->
@@ -131,16 +157,36 @@ Section Carry.
   Notation rel_result := (rel_result join ring_of).
   Notation poly_result := (poly_result join ring_of).
 
-  Lemma poly_result_carries o d r f :
-    In r (relations d) -> snd (poly_result o d r) = Some f ->
-    carries_element o d f /\ f_tainted f = mp_tainted d r.
+  Lemma poly_result_taint o d r f :
+    snd (poly_result o d r) = Some f -> f_tainted f = mp_tainted d r.
   Proof.
-    intros Hr. unfold Model.poly_result.
+    unfold Model.poly_result, Model.poly_result_with.
     set (steps := map (poly_step d (r_tags r)) (r_members r)).
     assert (Ht : existsb ps_taint steps = mp_tainted d r) by apply steps_taint.
-    assert (Hrel : forall g, carries_element o d (mk_feature o d TRel (r_id r) (r_tags r) (existsb ps_taint steps) (r_meta r) g)
-                             /\ f_tainted (mk_feature o d TRel (r_id r) (r_tags r) (existsb ps_taint steps) (r_meta r) g) = mp_tainted d r).
-    { intros g. split; [|exact Ht]. apply mk_carries. exists r. auto. }
+    destruct (is_nil (flat_map ps_outer steps) && negb (inclInvalid o)); cbn [snd]; [discriminate|].
+    destruct (flat_map ps_outer steps) as [|[s w] rest] eqn:Houter.
+    - destruct (is_nil _ && negb _); cbn [snd]; [discriminate|].
+      destruct (mp_geom _); cbn [snd]; [|discriminate]. intros H. injection H as <-. exact Ht.
+    - destruct rest as [|p rest].
+      + destruct (fold_right Z.add 0 (map ps_cnt steps) =? 1).
+        * destruct (ring_invalid _); cbn [snd]; [discriminate|].
+          destruct (has_interesting (r_tags r) (Some old_style_ignore)); cbn [snd];
+            intros H; injection H as <-; exact Ht.
+        * destruct (is_nil _ && negb _); cbn [snd]; [discriminate|].
+          destruct (mp_geom _); cbn [snd]; [|discriminate]. intros H. injection H as <-. exact Ht.
+      + destruct (is_nil _ && negb _); cbn [snd]; [discriminate|].
+        destruct (mp_geom _); cbn [snd]; [|discriminate]. intros H. injection H as <-. exact Ht.
+  Qed.
+
+  Lemma poly_result_carries o d r f :
+    key_clash d = false -> poly_in_range r = true ->
+    In r (relations d) -> snd (poly_result o d r) = Some f ->
+    carries_element o d f.
+  Proof.
+    intros Hc Hin Hr. rewrite (poly_result_exact join ring_of o d r Hin). unfold Model.poly_result_with.
+    set (steps := map (poly_step d (r_tags r)) (r_members r)).
+    assert (Hrel : forall g, carries_element o d (mk_feature o d TRel (r_id r) (r_tags r) (existsb ps_taint steps) (r_meta r) g)).
+    { intros g. apply mk_carries; [exact Hc|exact (rel_key_in d r Hr)|]. exists r. auto. }
     destruct (is_nil (flat_map ps_outer steps) && negb (inclInvalid o)); cbn [snd]; [discriminate|].
     destruct (flat_map ps_outer steps) as [|[s w] rest] eqn:Houter.
     - destruct (is_nil _ && negb _); cbn [snd]; [discriminate|].
@@ -150,12 +196,16 @@ Section Carry.
         - fold steps. rewrite Houter. left. reflexivity.
         - left. exact (proj1 (way_lookup_some _ _ _ Hs)).
         - right. exists r, m. auto. }
+      assert (Hk : In (TWay, w_id w) (element_keys d)).
+      { destruct (outer_in_members d (r_tags r) (r_members r) s w) as [m [Hm [Ho Hid]]].
+        - fold steps. rewrite Houter. left. reflexivity.
+        - rewrite Hid. exact (outer_key_in d r m Hr Hm Ho). }
       destruct rest as [|p rest].
       + destruct (fold_right Z.add 0 (map ps_cnt steps) =? 1).
         * destruct (ring_invalid _); cbn [snd]; [discriminate|].
           destruct (has_interesting (r_tags r) (Some old_style_ignore)); cbn [snd];
             intros H; injection H as <-; [apply Hrel|].
-          split; [|exact Ht]. apply mk_carries. exists w. auto.
+          apply mk_carries; [exact Hc|exact Hk|]. exists w. auto.
         * destruct (is_nil _ && negb _); cbn [snd]; [discriminate|].
           destruct (mp_geom _); cbn [snd]; [|discriminate]. intros H. injection H as <-. apply Hrel.
       + destruct (is_nil _ && negb _); cbn [snd]; [discriminate|].
@@ -163,20 +213,23 @@ Section Carry.
   Qed.
 
   (* E: every feature of the output carries its element *)
-  Theorem feature_carries o d f : In f (convert o d) -> carries_element o d f.
+  Theorem feature_carries o d f : packed_ok d = true -> In f (convert o d) -> carries_element o d f.
   Proof.
-    unfold Model.convert. rewrite !in_app_iff. intros [H|[H|H]].
+    intros Hok. destruct (packed_ok_split d Hok) as [Hpoly Hc]. unfold Model.convert. rewrite !in_app_iff. intros [H|[H|H]].
     - destruct (rel_features_in _ _ _ _ _ H) as [r [Hr Hf]]. revert Hf. unfold Model.rel_result.
-      destruct (String.eqb (tag_find (r_tags r) "type") "route").
+      destruct (String.eqb (tag_find (r_tags r) "type") "route") eqn:Hty.
       + unfold route_result.
         destruct (flat_map rs_lines (map (route_step d) (r_members r))); cbn [snd]; [discriminate|].
-        intros Hf. injection Hf as <-. apply mk_carries. exists r. auto.
-      + destruct (_ || _); [|discriminate]. intros Hf. exact (proj1 (poly_result_carries o d r f Hr Hf)).
+        intros Hf. injection Hf as <-. apply mk_carries; [exact Hc|exact (rel_key_in d r Hr)|]. exists r. auto.
+      + destruct (_ || _) eqn:Hm; [|discriminate]. intros Hf.
+        assert (Hmp : is_mp r = true) by (unfold is_mp; rewrite Hty, Hm; reflexivity).
+        exact (poly_result_carries o d r f Hc (poly_ids_ok_rel d r Hpoly Hr Hmp) Hr Hf).
     - destruct (way_features_in _ _ _ _ _ H) as [w [Hw [_ Hf]]]. unfold way_feature in Hf.
       destruct (way_line d (w_nodes w)) as [ls t]. destruct (List.length ls <=? 1)%nat; [discriminate|].
-      injection Hf as <-. apply mk_carries. exists w. split; [left; exact Hw|auto].
+      injection Hf as <-. apply mk_carries; [exact Hc|exact (way_key_in d w Hw)|]. exists w. split; [left; exact Hw|auto].
     - destruct (node_features_in _ _ _ H) as [n [Hn [_ Hf]]]. unfold node_feature in Hf.
-      destruct (node_located n); [|discriminate]. injection Hf as <-. apply mk_carries. exists n. auto.
+      destruct (node_located n); [|discriminate]. injection Hf as <-.
+      apply mk_carries; [exact Hc|exact (node_key_in d n Hn)|]. exists n. auto.
   Qed.
 
   (* the tainted flag, per feature class *)
@@ -197,6 +250,6 @@ Section Carry.
     - intros r Hr Hf. destruct (String.eqb (tag_find (r_tags r) "type") "route") eqn:Hty.
       + exact (proj1 (proj2 (proj2 (route_feature_geometry join ring_of o d r f Hty Hf)))).
       + revert Hf. unfold Model.rel_result. rewrite Hty. destruct (_ || _); [|discriminate].
-        intros Hf. exact (proj2 (poly_result_carries o d r f Hr Hf)).
+        intros Hf. exact (poly_result_taint o d r f Hf).
   Qed.
 End Carry.
